@@ -52,6 +52,8 @@
 #include "stir/ExamInfo.h"
 #include "stir/TextWriter.h"
 #include "stir/Succeeded.h"
+#include "stir/ParsingObject.h"
+#include "c17_hdrcheck.h"
 #include <algorithm>
 #include <deque>
 #include <dirent.h>
@@ -1800,6 +1802,291 @@ with_dir(std::string t)
   return t;
 }
 
+
+// ------------------------------------------------------------------------------------------------ Interfile headers, keys in any order
+// A valid single / dynamic / parametric Interfile image header over the keys that the Lean model has (lean/StirVerif/C17/Model.lean,
+// `imageHeader0`), with INTEGER values for the float-valued keys, in the order of the library's writer
+// (write_basic_interfile_image_header, interfile.cxx); `faults` plants one wrong value / index / missing line now and then.
+struct GenHeader
+{
+  std::vector<std::string> lines;
+  int T = 1, K = 1, nz = 1;
+};
+
+static GenHeader
+gen_image_header(vh::Rng& rng, bool list_scaling, bool faults)
+{
+  GenHeader g;
+  auto key = [&](const std::string& k) { return rng.range(0, 5) == 0 ? equivalent_variant(rng, k) : k; };
+  auto as = [&]() { return std::string(rng.range(0, 4) == 0 ? ":=" : " := "); };
+  const int kind = rng.range(0, 9); // 0-2 single, 3-5 dynamic, 6-8 parametric, 9 both
+  g.T = (kind >= 3 && kind <= 5) ? rng.range(2, 4) : (kind == 9 ? 2 : 1);
+  g.K = (kind >= 6 && kind <= 8) ? rng.range(2, 3) : (kind == 9 ? 2 : 1);
+  const int nx = rng.range(1, 5), ny = rng.range(1, 5);
+  g.nz = rng.range(1, 4);
+  const int fault = faults ? rng.range(0, 24) : -1;
+  std::vector<std::string>& l = g.lines;
+  l.push_back("!INTERFILE  :=");
+  if (rng.coin())
+    l.push_back("!imaging modality := PT");
+  l.push_back(key("!version of keys") + as() + (rng.range(0, 3) == 0 ? "3.3" : "STIR6.0"));
+  l.push_back(key("name of data file") + as() + "hdr_data.v");
+  l.push_back("!GENERAL DATA :=");
+  l.push_back("!GENERAL IMAGE DATA :=");
+  l.push_back(key("!type of data") + as() + (fault == 0 ? "Tomographic" : fault == 1 ? "no such type" : fault == 2 ? "Static" : "PET"));
+  l.push_back(key("imagedata byte order") + as() + (rng.coin() ? "LITTLEENDIAN" : "BIGENDIAN"));
+  if (rng.range(0, 3) != 0)
+    l.push_back("!PET STUDY (General) :=");
+  if (fault != 3)
+    l.push_back(key("!PET data type") + as() + (fault == 4 ? "Emission" : "Image"));
+  const bool as_float = rng.coin();
+  l.push_back(key("!number format") + as() + (as_float ? "float" : "signed integer"));
+  if (fault != 5)
+    l.push_back(key("!number of bytes per pixel") + as() + (fault == 6 ? "0" : as_float ? "4" : "2"));
+  if (fault != 7)
+    l.push_back(key("number of dimensions") + as() + (fault == 8 ? "2" : fault == 9 ? "4" : fault == 10 ? "-1" : "3"));
+  static const char* axis[] = { "x", "y", "z" };
+  const int size[] = { nx, ny, g.nz };
+  const int label_mode = rng.range(0, faults ? 9 : 4); // 0: no labels at all; 1..4: all three; else (faulty): some of them
+  for (int d = 1; d <= 3; ++d)
+    {
+      const std::string ix = std::string(rng.range(0, 3) == 0 ? "[" : " [") + std::to_string(d) + "]";
+      if (label_mode >= 1 && (label_mode <= 4 || rng.coin()))
+        l.push_back(key("matrix axis label") + ix + as() + axis[d - 1]);
+      if (!(fault == 11 && d == 2))
+        l.push_back(key("!matrix size") + ix + as() + (fault == 12 && d == 3 ? std::string("0") : fault == 13 && d == 1 ? std::string("{2,2}") : std::to_string(size[d - 1])));
+      l.push_back(key("scaling factor (mm/pixel)") + ix + as() + std::to_string(rng.range(1, 4)));
+    }
+  if (rng.coin())
+    for (int d = 1; d <= 3; ++d)
+      l.push_back(key("first pixel offset (mm)") + " [" + std::to_string(d) + "]" + as() + std::to_string(rng.range(-9, 9)));
+  if (fault == 14)
+    l.push_back("matrix size [4] := 2");
+  if (fault != 15 || g.T > 1)
+    l.push_back(key("number of time frames") + as() + (fault == 16 ? "0" : fault == 17 ? "-2" : std::to_string(g.T)));
+  if (g.T > 1 || rng.range(0, 3) == 0)
+    {
+      int t = 0;
+      for (int f = 1; f <= g.T + (fault == 18 ? 1 : 0); ++f)
+        {
+          const int d = 30 * rng.range(1, 4);
+          l.push_back(key("image duration (sec)") + "[" + std::to_string(f) + "]" + as() + std::to_string(d));
+          l.push_back(key("image relative start time (sec)") + "[" + std::to_string(f) + "]" + as() + std::to_string(t));
+          t += d;
+        }
+    }
+  const int W = rng.range(0, 5) == 0 ? 2 : 1;
+  if (W > 1 || rng.coin())
+    {
+      l.push_back(key("number of energy windows") + as() + std::to_string(W));
+      for (int w = 1; w <= W + (fault == 19 ? 1 : 0); ++w)
+        {
+          l.push_back(key("energy window lower level") + "[" + std::to_string(w) + "]" + as() + std::to_string(300 + 50 * w));
+          l.push_back(key("energy window upper level") + "[" + std::to_string(w) + "]" + as() + std::to_string(600 + 50 * w));
+        }
+    }
+  if (g.K > 1 || rng.range(0, 4) == 0)
+    {
+      l.push_back(key("number of image data types") + as() + (fault == 20 ? "-1" : std::to_string(g.K)));
+      l.push_back(key("index nesting level") + as() + "{data type}");
+      static const char* names[] = { "slope", "intercept", "third parameter", "fourth" };
+      for (int k = 1; k <= g.K + (fault == 21 ? 1 : 0); ++k)
+        l.push_back(key("image data type description") + "[" + std::to_string(k) + "]" + as() + names[k - 1]);
+    }
+  const int N = g.T * g.K;
+  if (N > 1 || rng.coin() || list_scaling)
+    for (int i = 1; i <= N + (fault == 22 ? 1 : 0); ++i)
+      {
+        std::string v = std::to_string(rng.range(1, 3));
+        if (list_scaling && (i == 1 || rng.coin()))
+          {
+            v = "{";
+            for (int z = 0; z < g.nz + (fault == 23 ? 1 : 0); ++z)
+              v += (z ? "," : "") + std::to_string(z + 1 + i);
+            v += "}";
+          }
+        l.push_back(key("image scaling factor") + "[" + std::to_string(i) + "]" + as() + v);
+        if (fault != 24 || i != N)
+          l.push_back(key("data offset in bytes") + "[" + std::to_string(i) + "]" + as() + std::to_string((i - 1) * nx * ny * g.nz * (as_float ? 4 : 2)));
+      }
+  l.push_back("!END OF INTERFILE :=");
+  return g;
+}
+
+struct HdrResult
+{
+  std::string answer; // rej | err | ok <dump>
+  std::string dump, tables_why;
+  bool accepted = false;
+};
+
+static HdrResult
+run_image_header(const std::string& text)
+{
+  HdrResult r;
+  try
+    {
+      c17::ImgHdrProbe h;
+      std::istringstream in(text);
+      if (!h.parse(in))
+        r.answer = "rej";
+      else
+        {
+          r.accepted = true;
+          r.dump = c17::image_dump(h);
+          r.tables_why = c17::image_tables_check(h);
+          r.answer = "ok " + r.dump;
+        }
+    }
+  catch (std::bad_alloc&)
+    {
+      throw;
+    }
+  catch (std::exception&)
+    {
+      r.answer = "err";
+    }
+  return r;
+}
+
+static HdrResult
+run_multi_header(const std::string& text)
+{
+  HdrResult r;
+  try
+    {
+      MultipleDataSetHeader h;
+      std::istringstream in(text);
+      if (!h.parse(in))
+        r.answer = "rej";
+      else
+        {
+          r.accepted = true;
+          std::vector<std::string> names;
+          for (std::size_t k = 0; k < h.get_num_data_sets(); ++k)
+            names.push_back(h.get_filename(static_cast<unsigned>(k)));
+          r.dump = "i:" + std::to_string(h.get_num_data_sets()) + " vs:" + c17::strs(names);
+          r.answer = "ok " + r.dump;
+        }
+    }
+  catch (std::bad_alloc&)
+    {
+      throw;
+    }
+  catch (std::exception&)
+    {
+      r.answer = "err";
+    }
+  return r;
+}
+
+// ------------------------------------------------------------------------------------------------ copies of ParsingObjects
+// A concrete ParsingObject (the real base class: copy constructor, operator=, parse, parameter_info) with members of the
+// modelled kinds.  The Lean side gets the same key table through `cfg key` lines (po_describe_class).
+struct ProbeObject : public ParsingObject
+{
+  int n;
+  std::string name;
+  bool flag;
+  int mode;
+  ASCIIlist_type values;
+  std::vector<int> il;
+  std::vector<std::string> sl;
+  std::vector<int> vi;
+  std::vector<std::string> vs;
+  ProbeObject() { set_defaults(); }
+  void set_defaults() override
+  {
+    n = 5;
+    name = "default name";
+    flag = false;
+    mode = 1;
+    values = { "first value", "Second_Value", "third" };
+    il = { 1, 2 };
+    sl = { "a", "b c" };
+    vi = { 10, 20, 30 };
+    vs = { "one", "two", "three" };
+  }
+  void initialise_keymap() override
+  {
+    parser.add_start_key("Probe Object");
+    parser.add_key("n things", &n);
+    parser.add_key("a name", &name);
+    parser.add_key("flag", &flag);
+    parser.add_key("mode", &mode, &values);
+    parser.add_key("int list", &il);
+    parser.add_key("string list", &sl);
+    parser.add_vectorised_key("v ints", &vi);
+    parser.add_vectorised_key("v names", &vs);
+    parser.add_stop_key("End Probe Object");
+  }
+  std::string dump() const
+  {
+    std::ostringstream o;
+    o << "i:" << n << " s:" << hexs(name) << " b:" << (flag ? 1 : 0) << " c:" << mode << " il:" << fmt_ints(il) << " sl:" << fmt_strs(sl) << " vi:" << fmt_ints(vi)
+      << " vs:" << fmt_strs(vs);
+    return o.str();
+  }
+};
+
+static void
+po_describe_class()
+{
+  emit("cfg reset", "ok");
+  emit("cfg key start none " + hexs("Probe Object"), "ok");
+  emit("cfg key set int " + hexs("n things") + " 5", "ok");
+  emit("cfg key set ascii " + hexs("a name") + " " + hexs("default name"), "ok");
+  emit("cfg key set bool " + hexs("flag") + " 0", "ok");
+  emit("cfg key set choice " + hexs("mode") + " 1 " + hexs("first value") + " " + hexs("Second_Value") + " " + hexs("third"), "ok");
+  emit("cfg key set ilist " + hexs("int list") + " 1 2", "ok");
+  emit("cfg key set slist " + hexs("string list") + " " + hexs("a") + " " + hexs("b c"), "ok");
+  emit("cfg key set vint " + hexs("v ints") + " 10 20 30", "ok");
+  emit("cfg key set vascii " + hexs("v names") + " " + hexs("one") + " " + hexs("two") + " " + hexs("three"), "ok");
+  emit("cfg key stop none " + hexs("End Probe Object"), "ok");
+  emit("po reset", "ok");
+}
+
+static std::string
+po_text(vh::Rng& rng)
+{
+  std::string t = rng.range(0, 11) == 0 ? "" : "Probe Object :=\n";
+  for (int k = rng.range(1, 5); k > 0; --k)
+    {
+      switch (rng.range(0, 9))
+        {
+        case 0:
+        case 1:
+          t += "n things := " + std::to_string(rng.range(-99, 999));
+          break;
+        case 2:
+          t += std::string("a name := ") + WORDS[rng.range(0, 20)] + (rng.coin() ? std::string(" ") + WORDS[rng.range(0, 20)] : "");
+          break;
+        case 3:
+          t += "flag := " + std::to_string(rng.range(0, 2));
+          break;
+        case 4:
+          t += std::string("mode := ") + (rng.range(0, 5) == 0 ? "no such mode" : rng.coin() ? "THIRD" : "first_value");
+          break;
+        case 5:
+          t += "int list := {" + std::to_string(rng.range(0, 9)) + (rng.coin() ? ", " + std::to_string(rng.range(-9, 9)) : "") + "}";
+          break;
+        case 6:
+          t += std::string("string list := {") + WORDS[rng.range(0, 20)] + (rng.coin() ? std::string(", ") + WORDS[rng.range(0, 20)] : "") + "}";
+          break;
+        case 7:
+        case 8:
+          t += "v ints[" + std::to_string(rng.range(0, 10) == 0 ? rng.range(-1, 5) : rng.range(1, 3)) + "] := " + std::to_string(rng.range(100, 999));
+          break;
+        default:
+          t += "v names[" + std::to_string(rng.range(1, 3)) + "] := " + WORDS[rng.range(0, 20)];
+        }
+      t += "\n";
+    }
+  if (rng.range(0, 7) != 0)
+    t += "End Probe Object :=\n";
+  return t;
+}
+
 // ------------------------------------------------------------------------------------------------ main
 int
 main(int argc, char** argv)
@@ -2304,6 +2591,249 @@ main(int argc, char** argv)
           emit("pdfsseg " + std::to_string(declared) + toks(ax) + " |" + (has_min ? toks(mn) : std::string(" -")) + " |" + (has_max ? toks(mx) : std::string(" -")), ans);
         }
     }
+
+
+  // ================================================================ 4d. Interfile image / multiple-data-set headers, size-giving keys in ANY order
+  // op: hdr image x<text> | hdr multi x<text>     answer: rej | err | ok <all modelled members of the header object>
+  // ORACLE (i): an accepted header object has every table at the announced length (image_tables_check);
+  // ORACLE (ii): a header whose size-giving lines come in another order is rejected or gives the members of the writer's order.
+  {
+    const int ncanon = thorough ? 900 : 170, nperm = 4;
+    long accepted = 0, permuted_accepted = 0;
+    for (int c = 0; c < ncanon; ++c)
+      {
+        const GenHeader g = gen_image_header(rng, false, rng.range(0, 2) == 0);
+        const std::string canon_text = join_lines(g.lines);
+        const HdrResult canon = run_image_header(canon_text);
+        emit("hdr image " + hexs(canon_text), canon.answer);
+        accepted += canon.accepted;
+        ++g_oracle_checks;
+        if (canon.accepted && !canon.tables_why.empty())
+          oracle_fail("Interfile image header accepted with tables that do not have the announced length (" + canon.tables_why + "): " + canon_text);
+        for (int k = 0; k < nperm; ++k)
+          {
+            std::string how;
+            std::vector<std::string> pl = c17::reorder_header(g.lines, rng, how);
+            bool type_moved = false;
+            if (rng.range(0, 11) == 0)
+              { // the keys 'PET data type' / 'data offset in bytes' exist only AFTER 'type of data := PET': move that line as well
+                for (std::size_t j = 1; j + 1 < pl.size(); ++j)
+                  if (c17::std_key_of(pl[j]) == "type of data")
+                    {
+                      const std::string tl = pl[j];
+                      pl.erase(pl.begin() + j);
+                      pl.insert(pl.begin() + rng.range(static_cast<int>(j), static_cast<int>(pl.size()) - 1), tl);
+                      type_moved = true;
+                      how += " + 'type of data' moved";
+                      break;
+                    }
+              }
+            const std::string text = join_lines(pl);
+            const HdrResult r = run_image_header(text);
+            emit("hdr image " + hexs(text), r.answer);
+            permuted_accepted += r.accepted;
+            ++g_oracle_checks;
+            if (r.accepted && !r.tables_why.empty())
+              oracle_fail("Interfile image header (" + how + ") accepted with tables that do not have the announced length (" + r.tables_why + "): " + text);
+            if (r.accepted && canon.accepted && !type_moved)
+              {
+                ++g_oracle_checks;
+                if (r.dump != canon.dump)
+                  oracle_fail("Interfile image header with the size-giving keys in another order (" + how + ") is accepted with OTHER values than in the writer's order: "
+                              + r.dump + " / writer's order: " + canon.dump + " / header: " + text);
+              }
+          }
+      }
+    ++g_oracle_checks;
+    if (accepted < ncanon / 3 || permuted_accepted < ncanon / 2)
+      oracle_fail("header-order generator: too few accepted headers (" + std::to_string(accepted) + " canonical, " + std::to_string(permuted_accepted)
+                  + " permuted): the generator or the library's reading of its own key set changed");
+    // ---- per-plane lists of scaling factors in front of a count key (oracle only: see KNOWN-CANDIDATE text)
+    const int nlist = thorough ? 600 : 120;
+    for (int c = 0; c < nlist; ++c)
+      {
+        const GenHeader g = gen_image_header(rng, true, false);
+        const HdrResult canon = run_image_header(join_lines(g.lines));
+        ++g_oracle_checks;
+        if (!canon.accepted)
+          {
+            oracle_fail("valid Interfile image header with per-plane image scaling factors rejected: " + join_lines(g.lines));
+            continue;
+          }
+        std::string how;
+        const std::string text = join_lines(c17::reorder_header(g.lines, rng, how));
+        const HdrResult r = run_image_header(text);
+        ++g_oracle_checks;
+        if (r.accepted && !r.tables_why.empty())
+          oracle_fail("Interfile image header (" + how + ") accepted with tables that do not have the announced length (" + r.tables_why + "): " + text);
+        else if (r.accepted && r.dump != canon.dump)
+          {
+            // is the list of image scaling factors the only member that differs?
+            auto without_scaling = [](const std::string& d) {
+              std::vector<std::string> t = vh::split(d);
+              std::string o;
+              int vl = 0;
+              for (auto& x : t)
+                if (!(x.compare(0, 3, "vl:") == 0 && ++vl == 2))
+                  o += x + " ";
+              return o;
+            };
+            if (without_scaling(r.dump) == without_scaling(canon.dump))
+              known_candidate("interfile:scaling-factor-list-before-count-key",
+                              "an Interfile image header that gives 'image scaling factor[i] := {one value per plane}' BEFORE 'number of time frames' / 'number of image "
+                              "data types' is accepted, but every list is silently cut down to its first element, which is then used for all planes "
+                              "(InterfileHeader::read_frames_info / InterfileImageHeader::read_image_data_types run image_scaling_factors[i].resize(1, 1.) over ALL data "
+                              "sets, not only the new ones); same header with the count key first keeps the lists. E.g. (" + how + "): " + text);
+            else
+              oracle_fail("Interfile image header with the size-giving keys in another order (" + how + ") is accepted with OTHER values than in the writer's order: " + r.dump
+                          + " / writer's order: " + canon.dump + " / header: " + text);
+          }
+      }
+    // ---- MultipleDataSetHeader
+    const int nmulti = thorough ? 500 : 120;
+    for (int c = 0; c < nmulti; ++c)
+      {
+        const int N = rng.range(0, 4), fault = rng.range(0, 11);
+        std::vector<std::string> l;
+        l.push_back(rng.range(0, 9) == 0 ? "MULTI:=" : "Multi :=");
+        l.push_back((rng.range(0, 3) == 0 ? equivalent_variant(rng, "total number of data sets") : std::string("total number of data sets")) + " := "
+                    + (fault == 0 ? "-1" : fault == 1 ? std::to_string(N + 1) : std::to_string(N)));
+        for (int i = 1; i <= N + (fault == 2 ? 1 : 0); ++i)
+          l.push_back("data set[" + std::to_string(i) + "] := " + (fault == 3 && i == N ? std::string() : "file_" + std::to_string(i) + ".hs"));
+        l.push_back("End :=");
+        const std::string canon_text = join_lines(l);
+        const HdrResult canon = run_multi_header(canon_text);
+        emit("hdr multi " + hexs(canon_text), canon.answer);
+        for (int k = 0; k < 2; ++k)
+          {
+            std::string how;
+            const std::string text = join_lines(c17::reorder_header(l, rng, how));
+            const HdrResult r = run_multi_header(text);
+            emit("hdr multi " + hexs(text), r.answer);
+            ++g_oracle_checks;
+            if (r.accepted && canon.accepted && r.dump != canon.dump)
+              oracle_fail("MultipleDataSetHeader with its lines in another order (" + how + ") is accepted with other values: " + r.dump + " / " + canon.dump + " / " + text);
+          }
+      }
+  }
+
+  // ================================================================ 4e. copies of ParsingObjects
+  // op: po new | po copy <i> | po assign <i> <j> | po parse <i> x<text> | po info <i> | po destroy <i>
+  // ORACLE: a copy prints the values it was copied with; an operation on one object never changes what another object prints;
+  //         the text a copy prints parses into a fresh object that prints the same text.
+  {
+    const int nhist = thorough ? 400 : 70;
+    for (int hst = 0; hst < nhist; ++hst)
+      {
+        po_describe_class();
+        std::vector<std::unique_ptr<ProbeObject>> obj;
+        std::vector<std::string> expect; // what object k has to print
+        auto live = [&]() {
+          std::vector<int> r;
+          for (std::size_t k = 0; k < obj.size(); ++k)
+            if (obj[k])
+              r.push_back(static_cast<int>(k));
+          return r;
+        };
+        auto info = [&](int k) {
+          const std::string s = obj[k]->parameter_info();
+          emit("po info " + std::to_string(k), hexs(s));
+          return s;
+        };
+        auto others_unchanged = [&](int except, const std::string& after) {
+          for (int k : live())
+            if (k != except)
+              {
+                const std::string s = info(k);
+                ++g_oracle_checks;
+                if (s != expect[k])
+                  oracle_fail("ParsingObject copies: after '" + after + "' object " + std::to_string(k) + " (not involved) prints other values than before: "
+                              + first_difference(expect[k], s));
+              }
+        };
+        auto pick = [&]() {
+          const std::vector<int> l = live();
+          return l[rng.range(0, static_cast<int>(l.size()) - 1)];
+        };
+        obj.emplace_back(new ProbeObject);
+        emit("po new", "0");
+        expect.push_back(info(0));
+        const int nops = rng.range(8, 22);
+        for (int step = 0; step < nops; ++step)
+          {
+            if (live().empty())
+              break;
+            const int what = rng.range(0, 11);
+            if (what <= 4)
+              { // parse other values into one object
+                const int i = pick();
+                const std::string text = po_text(rng);
+                std::string tag;
+                try
+                  {
+                    std::istringstream in(text);
+                    tag = obj[i]->parse(in) ? "ok1" : "ok0";
+                  }
+                catch (std::bad_alloc&)
+                  {
+                    throw;
+                  }
+                catch (std::exception&)
+                  {
+                    tag = "err";
+                  }
+                emit("po parse " + std::to_string(i) + " " + hexs(text), tag + " " + obj[i]->dump());
+                expect[i] = info(i);
+                others_unchanged(i, "parse into object " + std::to_string(i));
+              }
+            else if (what <= 7 && obj.size() < 9)
+              { // copy constructor
+                const int i = pick();
+                obj.emplace_back(new ProbeObject(*obj[i]));
+                const int k = static_cast<int>(obj.size()) - 1;
+                emit("po copy " + std::to_string(i), std::to_string(k));
+                expect.push_back(expect[i]);
+                if (rng.coin())
+                  { // the copy is looked at right away ...
+                    const std::string s = info(k);
+                    ++g_oracle_checks;
+                    if (s != expect[i])
+                      oracle_fail("ParsingObject copies: a fresh copy of object " + std::to_string(i) + " does not print the values it was copied with: " + first_difference(expect[i], s));
+                    // ... and its text parses into a new object that prints the same text
+                    ProbeObject fresh;
+                    std::istringstream in(s);
+                    ++g_oracle_checks;
+                    bool ok = false;
+                    try
+                      {
+                        ok = fresh.parse(in) && fresh.parameter_info() == s;
+                      }
+                    catch (std::exception&)
+                      {}
+                    if (!ok)
+                      oracle_fail("ParsingObject copies: the text printed by a copy does not parse back into an object printing the same text: " + s);
+                  }
+                // (... or only after the original has been changed or destroyed: see the following operations)
+              }
+            else if (what <= 9 && live().size() >= 2)
+              { // assignment
+                const int i = pick(), j = pick();
+                *obj[i] = *obj[j];
+                emit("po assign " + std::to_string(i) + " " + std::to_string(j), "ok");
+                expect[i] = expect[j];
+                others_unchanged(-1, "assignment of object " + std::to_string(j) + " to object " + std::to_string(i));
+              }
+            else if (live().size() >= 2)
+              { // destruction
+                const int i = pick();
+                obj[i].reset();
+                emit("po destroy " + std::to_string(i), "ok");
+                others_unchanged(i, "destruction of object " + std::to_string(i));
+              }
+          }
+      }
+    emit("cfg reset", "ok");
+  }
 
   // ================================================================ 5. property oracle on KeyParser itself
   {
